@@ -72,6 +72,37 @@ pub fn materialise(w: &Value, scratch: &Path) -> (PathBuf, PathBuf) {
     (top, root)
 }
 
+/// The documents change while the server runs: every pattern file of the world gets new content of the SAME length (key + 1)
+/// and keeps its modification time (what `rsync -t`, `cp -p`, `tar x` or two writes within one clock tick produce).
+/// Returns the world as it is afterwards.
+pub fn rewrite_in_place(w: &Value, scratch: &Path) -> Value {
+    let top = scratch.join(format!("w{}", w["id"]));
+    let mut w2 = w.clone();
+    let n_nodes = w["nodes"].as_array().unwrap().len();
+    for n in 2..=n_nodes {
+        let nd = w["nodes"][n - 1].clone();
+        let cls = nd["cls"].as_str().unwrap_or("");
+        if nd["kind"] != "file" || !(cls == "pat" || cls == "ascii") {
+            continue;
+        }
+        let p = node_path(w, n, &top);
+        let mtime = match std::fs::metadata(&p).and_then(|m| m.modified()) {
+            Ok(t) => t,
+            Err(_) => continue,
+        };
+        let len = nd["len"].as_u64().unwrap();
+        let key = (nd["key"].as_u64().unwrap() + 1) % 251;
+        let bytes: Vec<u8> = (0..len).map(|i| pat_byte(cls, key, i)).collect();
+        if std::fs::write(&p, bytes).is_ok() {
+            if let Ok(f) = std::fs::OpenOptions::new().write(true).open(&p) {
+                let _ = f.set_modified(mtime);
+            }
+            w2["nodes"][n - 1]["key"] = json!(key);
+        }
+    }
+    w2
+}
+
 fn stat_event(root: &Path, segs: &Value) -> Value {
     let parts: Vec<&str> = segs.as_array().map(|a| a.iter().map(|s| s.as_str().unwrap_or("")).collect()).unwrap_or_default();
     let p = format!("{}/{}", root.display(), parts.join("/"));
@@ -143,6 +174,7 @@ pub fn run(o: &Opts) -> i32 {
     let obs_mode = o.get("obs").unwrap_or("full").to_string();
     let triple = o.get("triple").is_some();
     let stats = o.get("stats").is_some();
+    let rewrite = o.get("rewrite").is_some();
     let wire_bin: Option<String> = o.get("bin").map(|s| s.to_string());
     crate::d_wire::set_logdir(&scratch);
     let mut out = Out::create(o.req("out"));
@@ -167,6 +199,23 @@ pub fn run(o: &Opts) -> i32 {
                 }
             };
             let (_top, root) = materialise(w, &scratch);
+            // "@ABSTOP@" inside a segment stands for the absolute path of this world's top directory (without the leading
+            // slash): targets that name a planted secret by its absolute location, in whatever spelling precedes the token
+            let abstop = _top.to_string_lossy().trim_start_matches('/').to_string();
+            let cases: Vec<Value> = cases.iter().map(|c| {
+                let mut c2 = c.clone();
+                if let Some(segs) = c2["segs"].as_array_mut() {
+                    for sg in segs.iter_mut() {
+                        if let Some(t) = sg.as_str() {
+                            if t.contains("@ABSTOP@") {
+                                *sg = json!(t.replace("@ABSTOP@", &abstop));
+                            }
+                        }
+                    }
+                }
+                c2
+            }).collect();
+            let cases = &cases;
             std::env::set_current_dir(&root).expect("chdir");
             out.emit(&json!({"ev":"Mount","world":w,"cfg":cfg_default()}));
             if let Some(bin) = &wire_bin {
@@ -180,17 +229,23 @@ pub fn run(o: &Opts) -> i32 {
                         return 2;
                     }
                 };
-                for c in cases.iter() {
-                    if c["entry"].as_str().unwrap_or("prod") != "prod" {
-                        continue;
+                for pass in 0..(if rewrite { 2 } else { 1 }) {
+                    if pass == 1 {
+                        let w2 = rewrite_in_place(w, &scratch);
+                        out.emit(&json!({"ev":"Mount","world":w2,"cfg":cfg_default()}));
                     }
-                    if triple {
-                        for m in ["GET", "HEAD", "OPTIONS"] {
-                            out.emit(&serve_one_wire(c, m, &obs_mode, addr));
+                    for c in cases.iter() {
+                        if c["entry"].as_str().unwrap_or("prod") != "prod" {
+                            continue;
                         }
-                    } else {
-                        let m = c["method"].as_str().unwrap_or("GET").to_string();
-                        out.emit(&serve_one_wire(c, &m, &obs_mode, addr));
+                        if triple {
+                            for m in ["GET", "HEAD", "OPTIONS"] {
+                                out.emit(&serve_one_wire(c, m, &obs_mode, addr));
+                            }
+                        } else {
+                            let m = c["method"].as_str().unwrap_or("GET").to_string();
+                            out.emit(&serve_one_wire(c, &m, &obs_mode, addr));
+                        }
                     }
                 }
                 srv.stop();
@@ -205,14 +260,20 @@ pub fn run(o: &Opts) -> i32 {
                     }
                 }
             }
-            for c in cases.iter() {
-                if triple {
-                    for m in ["GET", "HEAD", "OPTIONS"] {
-                        out.emit(&serve_one(c, m, &obs_mode));
+            for pass in 0..(if rewrite { 2 } else { 1 }) {
+                if pass == 1 {
+                    let w2 = rewrite_in_place(w, &scratch);
+                    out.emit(&json!({"ev":"Mount","world":w2,"cfg":cfg_default()}));
+                }
+                for c in cases.iter() {
+                    if triple {
+                        for m in ["GET", "HEAD", "OPTIONS"] {
+                            out.emit(&serve_one(c, m, &obs_mode));
+                        }
+                    } else {
+                        let m = c["method"].as_str().unwrap_or("GET").to_string();
+                        out.emit(&serve_one(c, &m, &obs_mode));
                     }
-                } else {
-                    let m = c["method"].as_str().unwrap_or("GET").to_string();
-                    out.emit(&serve_one(c, &m, &obs_mode));
                 }
             }
         }
